@@ -50,11 +50,13 @@ Definition run_fm (c : fm_t) : bool :=
 
 (* missing edges: (prior, cmps, pow table, T, n, id ranks, cluster ids, supplied prediction pairs,
    pair infos (n x n), tf of records, implementation pairs) *)
-Definition me_t := (Q * list (list level) * list (Q * Q * Q) * option Q * nat * list nat * list (option Z)
+Definition me_t := (Q * list (list level) * list (Q * Q * Q) * option Q * nat * list nat * list nat * bool * list (option Z)
                     * list (nat * nat) * list pinfo * list (list (option Q)) * list (nat * nat))%type.
 Definition run_me (c : me_t) : bool :=
-  match c with (p, cmps, tbl, Th, n, ranks, cl, preds, infos, tfs, impl) =>
-    let adm := fun l r => Nat.ltb (nth l ranks 0%nat) (nth r ranks 0%nat) in
+  match c with (p, cmps, tbl, Th, n, ranks, dss, lo, cl, preds, infos, tfs, impl) =>
+    (* link_and_dedupe / dedupe_only: composite id order; link_only: additionally different source datasets *)
+    let adm := fun l r => Nat.ltb (nth l ranks 0%nat) (nth r ranks 0%nat)
+                          && (negb lo || negb (Nat.eqb (nth l dss 0%nat) (nth r dss 0%nat))) in
     let go := fun thr => ep_missing_edges nat (tpow tbl) p cmps (outc_of n infos) adm (fun r => nth r cl None)
                            (fun l r => inb (l, r) preds) (tf_of tfs) thr (seq 0 n) in
     let strict := go Th in
@@ -68,6 +70,87 @@ Definition run_me (c : me_t) : bool :=
 
 FM_RULES = [[], ["l.a = r.a"], ["l.a = r.a", "l.b = r.b"],
             ["substr(l.c,1,1) = substr(r.c,1,1)", "l.d = r.d or l.a = r.a"], ["l.b = r.b or l.c = r.c", "l.d = r.d", "l.a = r.a"]]
+NAMES = ["ta", "tb", "tc"]
+
+
+def linked(case) -> bool:
+    return case["spec"]["link_type"] != "dedupe_only"
+
+
+def gen_tables(rng, link_type):
+    """dedupe_only: one table; link types: 2-3 tables whose unique ids overlap (the identity of a
+    record is then (source_dataset, unique_id)).  Returns rows with source_dataset filled in."""
+    if link_type == "dedupe_only":
+        rows = X.gen_data(rng, rng.randint(5, 8))
+        for r in rows:
+            r["source_dataset"] = "ta"
+        return rows
+    nt = rng.choice([2, 2, 3])
+    rows = []
+    for t in range(nt):
+        part = X.gen_data(rng, rng.randint(2, 4 if nt == 2 else 3))
+        ids = rng.sample([1, 2, 3, 4, 5, 10], len(part))      # overlapping across tables; '10' < '9' as strings
+        for r, i in zip(part, ids):
+            r["unique_id"] = i
+            r["source_dataset"] = NAMES[t]
+        rows += part
+    for c in G.COLS:
+        if all(r[c] is None for r in rows):
+            rows[0][c] = X.DOM[c][0]
+    return rows
+
+
+def ident(r):
+    return (r.get("source_dataset"), r.get("unique_id"))
+
+
+def out_ident(case, rec, side):
+    sds = rec.get(f"source_dataset_{side}") if linked(case) else "ta"
+    uid = rec[f"unique_id_{side}"]
+    return (sds, int(uid) if not isinstance(uid, str) or uid.lstrip("-").isdigit() else uid)
+
+
+def frame_of(rows, with_sds, tf=None, with_uid=True):
+    """DataFrame of records: string value columns, optional source_dataset / unique_id / tf_ columns
+    (tf: list of dicts col -> Fraction|None, one per row)"""
+    out = []
+    for k, r in enumerate(rows):
+        d = {}
+        if with_uid:
+            d["unique_id"] = r["unique_id"]
+        if with_sds:
+            d["source_dataset"] = r["source_dataset"]
+        for c in G.COLS:
+            d[c] = r.get(c)
+        if tf is not None:
+            for c, v in tf[k].items():
+                d[f"tf_{c}"] = None if v is None else float(v)
+        out.append(d)
+    df = pd.DataFrame(out)
+    for c in G.COLS:
+        df[c] = df[c].astype("string")
+    if with_sds:
+        df["source_dataset"] = df["source_dataset"].astype("string")
+    if tf is not None and out:
+        for c in tf[0]:
+            df[f"tf_{c}"] = df[f"tf_{c}"].astype("float64")
+    return df
+
+
+def make_linker(case, api=None):
+    spec = case["spec"]
+    if linked(case):
+        names = sorted({r["source_dataset"] for r in case["rows"]})
+        tabs = [frame_of([r for r in case["rows"] if r["source_dataset"] == n], False) for n in names]
+    else:
+        names, tabs = None, [frame_of(case["rows"], False)]
+    lk = su.linker(tabs, G.settings_creator(spec, case["rules"], case["backend"]), case["backend"], aliases=names, api=api)
+    G.apply_setters(lk._settings_obj, spec)
+    for c, tbl in case["lookups"].items():
+        df = pd.DataFrame([{c: v, f"tf_{c}": float(Fr(t))} for v, t in tbl.items()])
+        df[c] = df[c].astype("string")
+        lk.table_management.register_term_frequency_lookup(df, c)
+    return lk
 
 
 def tf_for_value(spec, rows, lookups, c, v):
@@ -81,32 +164,23 @@ def tf_for_value(spec, rows, lookups, c, v):
     return Fr(n, len(nn)) if n else None
 
 
-def one_row_frame(row, tf=None):
-    d = dict(row)
-    if tf:
-        for c, v in tf.items():
-            d[f"tf_{c}"] = None if v is None else float(v)
-    df = pd.DataFrame([d])
-    for c in G.COLS:
-        df[c] = df[c].astype("string")
-    if tf:
-        for c in tf:
-            df[f"tf_{c}"] = df[f"tf_{c}"].astype("float64")
-    return df
-
-
-def new_records(rng, rows):
+def new_records(rng, case):
     """new records: copies of existing records (seen values), records with unseen values / NULLs;
-    ids distinct among the new records, some equal to existing ids"""
+    identities distinct among the new records, several clashing with existing identities"""
+    rows = case["rows"]
     out = []
     k = rng.randint(2, 4)
-    ids = rng.sample([1, 2, 3, 101, 102, 103, 104], k)
+    mode = "none"
+    if linked(case):
+        mode = rng.choice(["none", "existing", "mixed"])      # no source_dataset column / existing names / also a new name
+    ids = rng.sample([1, 2, 3, 4, 101, 102, 103], k)
+    used = set()
     for nid in ids:
         base = dict(rng.choice(rows))
         base["_copy_of"] = None
         r = rng.random()
         if r < 0.45:
-            base["_copy_of"] = base["unique_id"]     # exact copy of an existing record
+            base["_copy_of"] = ident(base)             # exact copy of an existing record
         elif r < 0.8:
             c = rng.choice(G.COLS)
             base[c] = rng.choice(["zed", "qqq", None, X.DOM[c][0], X.DOM[c][-1]])
@@ -115,19 +189,29 @@ def new_records(rng, rows):
                 if rng.random() < 0.5:
                     base[c] = rng.choice(X.DOM[c] + ["unseen", None])
         base["unique_id"] = nid
+        if mode == "none":
+            base["source_dataset"] = "new_record" if linked(case) else "ta"
+        elif mode == "existing":
+            base["source_dataset"] = rng.choice(sorted({x["source_dataset"] for x in rows}))
+        else:
+            base["source_dataset"] = rng.choice(sorted({x["source_dataset"] for x in rows}) + ["tz"])
+        if ident(base) in used:
+            continue
+        used.add(ident(base))
         out.append(base)
-    return out
+    return out, mode
 
 
 def rule_matrices(rules, lrows, rrows):
     import duckdb
     con = duckdb.connect()
     for name, rs in (("tl", lrows), ("tr", rrows)):
-        df = pd.DataFrame([{"idx": i, **{k: r.get(k) for k in ["unique_id"] + G.COLS}} for i, r in enumerate(rs)])
-        for c in G.COLS:
+        df = pd.DataFrame([{"idx": i, **{k: r.get(k) for k in ["unique_id", "source_dataset"] + G.COLS}} for i, r in enumerate(rs)])
+        for c in G.COLS + ["source_dataset"]:
             df[c] = df[c].astype("string")
         con.register(name + "0", df)
-        con.execute(f"create table {name} as select idx, unique_id, " + ", ".join(f"cast({c} as varchar) as {c}" for c in G.COLS) + f" from {name}0")
+        con.execute(f"create table {name} as select idx, unique_id, cast(source_dataset as varchar) as source_dataset, "
+                    + ", ".join(f"cast({c} as varchar) as {c}" for c in G.COLS) + f" from {name}0")
     mats = []
     n, m = len(lrows), len(rrows)
     for rule in rules:
@@ -137,15 +221,38 @@ def rule_matrices(rules, lrows, rrows):
     return mats
 
 
-def run_entries(case, rng):
-    """run every entry point; returns scored rows per entry and the inputs of the two set claims"""
+def composite_ranks(case):
+    rows = case["rows"]
+    if not linked(case):
+        return [r["unique_id"] for r in rows]
+    keys = [f"{r['source_dataset']}-__-{r['unique_id']}" for r in rows]
+    assert len(set(keys)) == len(keys)
+    order = sorted(range(len(rows)), key=lambda i: keys[i])
+    rank = [0] * len(rows)
+    for p, i in enumerate(order):
+        rank[i] = p
+    return rank
+
+
+def run_entries(case, rng, api_hook=None):
+    """run every entry point; returns scored rows per entry and the inputs of the two set claims.
+    api_hook(api) may instrument the DatabaseAPI (used by the SQL-capture translator)."""
     spec, rows, lookups = case["spec"], case["rows"], case["lookups"]
-    byid = {r["unique_id"]: r for r in rows}
-    lk = X.make_linker(case)
+    lnk = linked(case)
+    byid = {ident(r): r for r in rows}
+    assert len(byid) == len(rows)
+    api = su.make_api(case["backend"])
+    if api_hook:
+        api_hook(api, "linker")
+    lk = make_linker(case, api)
+    if api_hook:
+        api_hook(api, "predict")
     pred = su.records(lk.inference.predict())
-    predmap = {(int(r["unique_id_l"]), int(r["unique_id_r"])): r for r in pred}
-    data_tf = {c: {r["unique_id"]: tf_for_value(spec, rows, lookups, c, r[c]) for r in rows} for c in spec["tf_cols"]}
-    entries = []          # (entry name, left row, right row, tfv dict col -> (l, r), engine record, comparable_with_predict)
+    predmap = {}
+    for r in pred:
+        predmap[frozenset((out_ident(case, r, "l"), out_ident(case, r, "r")))] = r
+    data_tf = {c: {ident(r): tf_for_value(spec, rows, lookups, c, r[c]) for r in rows} for c in spec["tf_cols"]}
+    entries = []          # (entry name, left row, right row, tfv dict col -> (l, r), engine record, predict key or None)
 
     def tfv_rows(rl, rr, left=None, right=None):
         out = {}
@@ -155,103 +262,142 @@ def run_entries(case, rng):
             out[c] = (a, b)
         return out
 
-    for (i, j), r in predmap.items():
-        entries.append(("predict", byid[i], byid[j], {c: (data_tf[c][i], data_tf[c][j]) for c in spec["tf_cols"]}, r, None))
+    for r in pred:
+        il, ir = out_ident(case, r, "l"), out_ident(case, r, "r")
+        entries.append(("predict", byid[il], byid[ir], {c: (data_tf[c][il], data_tf[c][ir]) for c in spec["tf_cols"]}, r, None))
+
+    ids = list(byid)
+
+    def pick_sides(multi):
+        """disjoint left / right record lists (1 x 1, or up to 2 x 3 rows for multi-row inputs)"""
+        k = len(ids)
+        nl, nr = (1, 1) if not multi else (rng.randint(1, 2), rng.randint(1, 3))
+        nl, nr = min(nl, max(1, k - 1)), min(nr, max(1, k - 1))
+        chosen = rng.sample(ids, min(k, nl + nr))
+        L, R = chosen[:nl], chosen[nl:nl + nr]
+        return (L, R) if R else (L, L)
+
+    def collect(name, out, Lrows, Rrows, supL, supR, comparable):
+        got = {}
+        for rec in out:
+            got[(out_ident(case, rec, "l"), out_ident(case, rec, "r"))] = rec
+        assert len(got) == len(out) == len(Lrows) * len(Rrows), (name, len(out), len(Lrows), len(Rrows))
+        for a, rl in enumerate(Lrows):
+            for b, rr in enumerate(Rrows):
+                rec = got[(ident(rl), ident(rr))]
+                key = frozenset((ident(rl), ident(rr))) if comparable and ident(rl) != ident(rr) else None
+                entries.append((name, rl, rr, tfv_rows(rl, rr, supL[a] if supL else None, supR[b] if supR else None), rec, key))
 
     # ---- compare_two_records (warm linker: TF by registered table / select distinct) ----
-    ids = [r["unique_id"] for r in rows]
-    for _ in range(case["n_c2r"]):
-        i, j = rng.sample(ids, 2)
-        rl, rr = dict(byid[i]), dict(byid[j])
+    if api_hook:
+        api_hook(api, "compare_two_records")
+    for q in range(case["n_c2r"]):
+        L, R = pick_sides(multi=(q == 0))
+        Lrows, Rrows = [dict(byid[i]) for i in L], [dict(byid[j]) for j in R]
         variant = rng.choice(["plain", "plain", "unseen", "supplied"])
-        sup_l = sup_r = None
+        supL = supR = None
         if variant == "unseen":
             c = rng.choice(G.COLS)
-            rr[c] = rng.choice(["zed", None, "unseen"])
+            Rrows[0][c] = rng.choice(["zed", None, "unseen"])
         if variant == "supplied" and spec["tf_cols"]:
             cs = [c for c in spec["tf_cols"] if rng.random() < 0.7] or spec["tf_cols"][:1]
-            sup_l = {c: Fr(rng.choice(["1/2", "1/10", "3/100", "1/4", "9/10"])) for c in cs}
-            sup_r = {c: Fr(rng.choice(["1/2", "1/10", "3/100", "1/4", "9/10"])) for c in cs}
-        out = su.records(lk.inference.compare_two_records(one_row_frame(rl, sup_l), one_row_frame(rr, sup_r)))
-        assert len(out) == 1, out
-        same = variant == "plain"
-        entries.append(("compare_two_records:" + variant, rl, rr, tfv_rows(rl, rr, sup_l, sup_r), out[0], (i, j) if same else None))
+            vals = ["1/2", "1/10", "3/100", "1/4", "9/10"]
+            supL = [{c: Fr(rng.choice(vals)) for c in cs} for _ in Lrows]
+            supR = [{c: Fr(rng.choice(vals)) for c in cs} for _ in Rrows]
+        out = su.records(lk.inference.compare_two_records(frame_of(Lrows, lnk, supL), frame_of(Rrows, lnk, supR)))
+        collect("compare_two_records:" + variant, out, Lrows, Rrows, supL, supR, variant == "plain")
 
     # ---- compare_two_records on a cold linker: no cached concat table -> NULL tf unless registered ----
     if case["cold"]:
-        lk2 = X.make_linker(case)
-        i, j = rng.sample(ids, 2)
-        rl, rr = byid[i], byid[j]
-        out = su.records(lk2.inference.compare_two_records(one_row_frame(rl), one_row_frame(rr)))
+        lk2 = make_linker(case)
+        L, R = pick_sides(multi=False)
+        rl, rr = byid[L[0]], byid[R[0]]
+        out = su.records(lk2.inference.compare_two_records(frame_of([rl], lnk), frame_of([rr], lnk)))
         tfv = {c: ((tf_for_value(spec, rows, lookups, c, rl[c]), tf_for_value(spec, rows, lookups, c, rr[c]))
                    if c in lookups else (None, None)) for c in spec["tf_cols"]}
+        assert len(out) == 1
         entries.append(("compare_two_records:cold", rl, rr, tfv, out[0], None))
 
-    # ---- realtime compare_records: the same model as a dictionary, TF values supplied ----
+    # ---- realtime compare_records: the same model as a dictionary, TF values supplied; first call
+    #      generates the SQL (use_sql_from_cache=False or cache miss), later calls reuse the cached text ----
     from splink.internals.realtime import compare_records
     model = lk.misc.save_model_to_json()
-    api = su.make_api(case["backend"])
-    for _ in range(case["n_rt"]):
-        i, j = rng.sample(ids, 2)
-        tl = {c: data_tf[c][i] for c in spec["tf_cols"]}
-        tr = {c: data_tf[c][j] for c in spec["tf_cols"]}
-        out = su.records(compare_records(one_row_frame(byid[i], tl), one_row_frame(byid[j], tr), model, api,
-                                         use_sql_from_cache=False))
-        assert len(out) == 1, out
-        entries.append(("realtime.compare_records", byid[i], byid[j], {c: (tl[c], tr[c]) for c in spec["tf_cols"]}, out[0], (i, j)))
+    api_rt = su.make_api(case["backend"])
+    if api_hook:
+        api_hook(api_rt, "realtime")
+    for q in range(case["n_rt"]):
+        L, R = pick_sides(multi=(q == 1))
+        Lrows, Rrows = [byid[i] for i in L], [byid[j] for j in R]
+        tl = [{c: data_tf[c][i] for c in spec["tf_cols"]} for i in L]
+        tr = [{c: data_tf[c][j] for c in spec["tf_cols"]} for j in R]
+        use_cache = case["rt_cache"][q % len(case["rt_cache"])]
+        out = su.records(compare_records(frame_of(Lrows, lnk, tl), frame_of(Rrows, lnk, tr), model, api_rt,
+                                         use_sql_from_cache=use_cache))
+        collect("realtime.compare_records:" + ("cached_sql" if use_cache else "fresh_sql"), out, Lrows, Rrows, tl, tr, True)
 
     # ---- find_matches_to_new_records ----
-    new_full = new_records(rng, rows)
+    if api_hook:
+        api_hook(api, "find_matches")
+    new_full, sds_mode = new_records(rng, case)
     new = [{k: v for k, v in r.items() if k != "_copy_of"} for r in new_full]
+    with_sds = lnk and sds_mode != "none"
     rules = case["fm_rules"]
     thr = case["fm_thr"]
-    allout = su.records(lk.inference.find_matches_to_new_records(X.frame(new), blocking_rules=rules, match_weight_threshold=-1e6))
+    allout = su.records(lk.inference.find_matches_to_new_records(frame_of(new, with_sds), blocking_rules=rules, match_weight_threshold=-1e6))
     if isinstance(thr, dict):
         fin = [r["match_weight"] for r in allout if r["match_weight"] is not None and not math.isinf(r["match_weight"])]
         thr = fin[thr["row"] % len(fin)] if fin else -4.0
-    fmout = su.records(lk.inference.find_matches_to_new_records(X.frame(new), blocking_rules=rules, match_weight_threshold=thr))
-    newidx = {r["unique_id"]: k for k, r in enumerate(new)}
-    exidx = {r["unique_id"]: k for k, r in enumerate(rows)}
+    fmout = su.records(lk.inference.find_matches_to_new_records(frame_of(new, with_sds), blocking_rules=rules, match_weight_threshold=thr))
+    newidx = {ident(r): k for k, r in enumerate(new)}
+    exidx = {ident(r): k for k, r in enumerate(rows)}
     for r in allout:
-        rl, rr = byid[int(r["unique_id_l"])], new[newidx[int(r["unique_id_r"])]]
+        rl, rr = byid[out_ident(case, r, "l")], new[newidx[out_ident(case, r, "r")]]
         # a new record that copies an existing record: comparable with predict on (existing, original)
-        orig = new_full[newidx[int(r["unique_id_r"])]]["_copy_of"]
-        key = None
-        if orig is not None and orig != rl["unique_id"]:
-            key = (min(orig, rl["unique_id"]), max(orig, rl["unique_id"]))
+        orig = new_full[newidx[ident(rr)]]["_copy_of"]
+        key = frozenset((orig, ident(rl))) if orig is not None and orig != ident(rl) else None
         entries.append(("find_matches_to_new_records", rl, rr, tfv_rows(rl, rr), r, key))
-    fm = {"thr": thr, "rules": rules, "new": new,
-          "impl": [(exidx[int(r["unique_id_l"])], newidx[int(r["unique_id_r"])]) for r in fmout],
+    fm = {"thr": thr, "rules": rules, "new": new, "new_source_dataset_column": sds_mode,
+          "impl": [(exidx[out_ident(case, r, "l")], newidx[out_ident(case, r, "r")]) for r in fmout],
           "mats": rule_matrices(rules, rows, new),
-          "etf": [[data_tf[c][r["unique_id"]] for c in spec["tf_cols"]] for r in rows],
+          "etf": [[data_tf[c][ident(r)] for c in spec["tf_cols"]] for r in rows],
           "ntf": [[tf_for_value(spec, rows, lookups, c, r.get(c)) for c in spec["tf_cols"]] for r in new],
           "outc": X.outcomes_rows(case, lk, [(rl, rr) for rl in rows for rr in new])}
 
     # ---- missing within-cluster edges ----
+    if api_hook:
+        api_hook(api, "missing_edges")
     ncl = rng.choice([1, 2, 2, 3])
-    cl = {r["unique_id"]: rng.randrange(ncl) for r in rows}
+    cl = {ident(r): rng.randrange(ncl) for r in rows}
     keep_frac = rng.choice([0.0, 0.3, 0.6, 1.0])
     sub = [r for r in pred if rng.random() < keep_frac]
-    dfc = lk.table_management.register_table(
-        pd.DataFrame([{"cluster_id": cl[r["unique_id"]], "unique_id": r["unique_id"]} for r in rows]), "c10_clusters", overwrite=True)
+    cdf = pd.DataFrame([{"cluster_id": cl[ident(r)], "unique_id": r["unique_id"], **({"source_dataset": r["source_dataset"]} if lnk else {})}
+                        for r in rows])
+    dfc = lk.table_management.register_table(cdf, "c10_clusters", overwrite=True)
     dfp = None
     if sub or rng.random() < 0.5:
-        cols = list(pred[0].keys()) if pred else ["unique_id_l", "unique_id_r"]
-        dfp = lk.table_management.register_table(pd.DataFrame(sub, columns=cols).astype({"unique_id_l": "int64", "unique_id_r": "int64"}),
-                                                 "c10_pred", overwrite=True)
+        cols = list(pred[0].keys()) if pred else (["unique_id_l", "unique_id_r"] + (["source_dataset_l", "source_dataset_r"] if lnk else []))
+        pdf = pd.DataFrame(sub, columns=cols).astype({"unique_id_l": "int64", "unique_id_r": "int64"})
+        if lnk:
+            pdf = pdf.astype({"source_dataset_l": "string", "source_dataset_r": "string"})
+        dfp = lk.table_management.register_table(pdf, "c10_pred", overwrite=True)
     me_thr = case["me_thr"]
     meout = su.records(lk.inference._score_missing_cluster_edges(dfc, dfp, threshold_match_weight=me_thr))
     for r in meout:
-        i, j = int(r["unique_id_l"]), int(r["unique_id_r"])
-        entries.append(("score_missing_cluster_edges", byid[i], byid[j], {c: (data_tf[c][i], data_tf[c][j]) for c in spec["tf_cols"]}, r, (i, j)))
-    me = {"thr": me_thr, "clusters": [cl[r["unique_id"]] for r in rows], "ranks": [r["unique_id"] for r in rows],
-          "preds": [(exidx[int(r["unique_id_l"])], exidx[int(r["unique_id_r"])]) for r in sub] if dfp is not None else [],
-          "impl": [(exidx[int(r["unique_id_l"])], exidx[int(r["unique_id_r"])]) for r in meout],
+        il, ir = out_ident(case, r, "l"), out_ident(case, r, "r")
+        entries.append(("score_missing_cluster_edges", byid[il], byid[ir], {c: (data_tf[c][il], data_tf[c][ir]) for c in spec["tf_cols"]}, r,
+                        frozenset((il, ir))))
+    names = sorted({r["source_dataset"] for r in rows})
+    me = {"thr": me_thr, "clusters": [cl[ident(r)] for r in rows], "ranks": composite_ranks(case),
+          "dss": [names.index(r["source_dataset"]) for r in rows], "link_only": spec["link_type"] == "link_only",
+          "preds": [(exidx[out_ident(case, r, "l")], exidx[out_ident(case, r, "r")]) for r in sub] if dfp is not None else [],
+          "impl": [(exidx[out_ident(case, r, "l")], exidx[out_ident(case, r, "r")]) for r in meout],
           "tfs": fm["etf"],
           "outc": X.outcomes_rows(case, lk, [(rl, rr) for rl in rows for rr in rows])}
+    if api_hook:
+        api_hook(api, "done")
     # outcomes for the scored rows, in each entry point's own orientation
     ocs = X.outcomes_rows(case, lk, [(e[1], e[2]) for e in entries])
-    return {"entries": entries, "outcomes": ocs, "predmap": predmap, "fm": fm, "me": me}
+    return {"entries": entries, "outcomes": ocs, "predmap": predmap, "fm": fm, "me": me, "linker": lk}
 
 
 def scoring_term(case, res):
@@ -263,7 +409,7 @@ def scoring_term(case, res):
         X.pow_rows(py, powtbl)
         t, bad = X.pair_term(spec, oc, tfv, rec)
         pterms.append(t)
-        infos.append({"entry": name, "pair": (rl.get("unique_id"), rr.get("unique_id")), "py": py, "left": rl, "right": rr,
+        infos.append({"entry": name, "pair": (ident(rl), ident(rr)), "py": py, "left": rl, "right": rr,
                       "tf": {c: [None if v is None else str(v) for v in tfv[c]] for c in tfv}, "rec": rec})
     term = (f"({coq_Q(Fr(spec['prior']))}, {G.cmps_term(spec)}, {X.powtbl_term(powtbl)}, (@None Q), (@None Q), false, "
             + coq_list(pterms, "ipair") + ")")
@@ -304,7 +450,8 @@ def me_term(case, res):
     set_powtbl(spec, me["outc"], lambda i: me["tfs"][i], lambda j: me["tfs"][j], n, n, powtbl)
     T = None if me["thr"] is None else Fr(2.0 ** me["thr"])
     return (f"({coq_Q(Fr(spec['prior']))}, {G.cmps_term(spec)}, {X.powtbl_term(powtbl)}, {X.oq(T)}, {n}%nat, "
-            f"{coq_list([f'{v}%nat' for v in me['ranks']], 'nat')}, "
+            f"{coq_list([f'{v}%nat' for v in me['ranks']], 'nat')}, {coq_list([f'{v}%nat' for v in me['dss']], 'nat')}, "
+            f"{coq_bool(me['link_only'])}, "
             f"{coq_list(['(Some ' + coq_Z(v) + ')' for v in me['clusters']], '(option Z)')}, "
             f"{coq_list([f'({a}%nat, {b}%nat)' for a, b in me['preds']], '(nat * nat)')}, "
             f"{_infos_term(me['outc'])}, {_tf_table(me['tfs'])}, "
@@ -343,7 +490,8 @@ def py_me_expected(case, res):
     out, near = [], []
     for i in range(n):
         for j in range(n):
-            if not (me["ranks"][i] < me["ranks"][j]) or me["clusters"][i] != me["clusters"][j] or (i, j) in me["preds"]:
+            if not (me["ranks"][i] < me["ranks"][j]) or me["clusters"][i] != me["clusters"][j] or (i, j) in me["preds"] \
+                    or (me["link_only"] and me["dss"][i] == me["dss"][j]):
                 continue
             tfv = {c: (me["tfs"][i][k], me["tfs"][j][k]) for k, c in enumerate(spec["tf_cols"])}
             py = X.py_score(spec, me["outc"][i * n + j], tfv)
